@@ -181,7 +181,7 @@ def main(argv: List[str]) -> int:
                 'has an edit that is not a skip')
     rep.assumptions = ['the fresh database is built by pv/builder.py from the final model computed by the specification',
                        'reference kind edits stay within > < - (many-to-many inline-ness is not observable through the public property)']
-    n = doccheck.budget(320, 5000)
+    n = doccheck.budget(500, 6000)
     max_edits = doccheck.budget(5, 10)
     lo = core.seed() * 100000 + 11001
     hs = gen(lo, lo + n - 1, max_edits, True, rep)
